@@ -218,6 +218,8 @@ class Engine(object):
         self.max_paths = max_paths
         self.frontier_depth = frontier_depth
         self.frontier = []
+        self.unsupported_paths = []
+        self.path_local_unsupported = False
 
     def at_frontier(self, ctx):
         """Frontier mode: stop at the first new decision at depth >= frontier_depth and record the prefix."""
@@ -242,6 +244,15 @@ class Engine(object):
                 self.stats.paths += 1
             except FrontierReached:
                 continue
+            except Unsupported as u:
+                # the executor left its subset on THIS path: the function stays undecided, but the obligations of the
+                # other paths (and those recorded on this path before that point) are still obligations
+                if not self.path_local_unsupported:
+                    raise
+                self.unsupported_paths.append("%s (%s)" % (u, u.where or getattr(u.node, "lineno", "?")))
+                self.stats.dead_paths += 1
+                ctx.covers = []
+                done.append(ctx)
             except PathDead:
                 self.stats.dead_paths += 1
                 # obligations recorded before the path died are still obligations
